@@ -15,7 +15,7 @@ import (
 	"github.com/formancehq/ledger/verifh/gen"
 )
 
-// Replay re-executes one replay file written by C22/C23/C25/C26/C27 outside of
+// Replay re-executes one replay file written by C22/C23/C24 (VM leg)/C25/C26/C27 outside of
 // any enumerator and prints what the real code does with it. It does not judge:
 // the output is meant to be read next to the "what" field of the file.
 func Replay(path string) error {
@@ -105,9 +105,12 @@ func Replay(path string) error {
 		if vars == nil {
 			_, vars = declaredVars(prog)
 		}
+		fp := programFingerprint(prog)
 		res := runMachine(prog, vars, vmStore{mkStore()})
 		fmt.Printf("machine: stage=%q err=%v panic=%v at=%s\n  postings=%v\n  balances=%v\n  txmeta=%v accmeta=%v\n",
 			res.Stage, res.Err, res.Panic, res.PanicAt, postingsString(res.Postings), balString(res.Balances), res.TxMeta, res.AccMeta)
+		// state that outlives the run (C22:global-state:*)
+		fmt.Printf("  after the run: package-level values damaged=%v compiled program changed=%v\n", globalStateDamage(), programFingerprint(prog) != fp)
 	}()
 	if doc.Property == "C26" {
 		func() {
